@@ -26,7 +26,7 @@ def rwRegisters : List (Nat × U16) := [
   (0xc8, 0xffff), (0xce, 0xffff), (0xd4, 0xffff), (0xd6, 0xcc1f), (0xd8, 0x1ff), (0xe2, 0xffff),
   (0xe4, 0xffff), (0xe6, 0xffff), (0xe8, 0xffff), (0xea, 0xffff), (0xec, 0xffff), (0xee, 0xffff),
   (0xf0, 0xffff), (0xf2, 0xffff), (0x10e, 0xffff), (0x110, 0xffff), (0x112, 0xffff), (0x114, 0xffff),
-  (0x116, 0xffff), (0x11a, 0xffff), (0x11e, 0xffff), (0x184, 0xffff), (0x1be, 0xffff), (0x1c0, 0xffff),
+  (0x116, 0xffff), (0x11a, 0xffff), (0x11e, 0xffff), (0x184, 0xffff), (0x1be, 0x7), (0x1c0, 0xffff),
   (0x1c2, 0xffff), (0x1c4, 0xffff), (0x1c6, 0xffff), (0x1c8, 0xffff), (0x1ca, 0xffff), (0x1cc, 0xffff),
   (0x1ce, 0xffff), (0x1d0, 0xffff), (0x1d2, 0xffff), (0x1d4, 0xffff), (0x1d6, 0xffff), (0x1d8, 0xffff),
   (0x1da, 0xffff), (0x1dc, 0xffff), (0x1de, 0xffff), (0x206, 0xffff), (0x208, 0xffff), (0x20a, 0xffff),
@@ -1077,7 +1077,8 @@ theorem cell_readback (b b' : Bus) (off : Fin mmioSize) (v m : U16) (c : Cell) (
         · simp [dmaCellWrite] at hw; obtain ⟨rfl, rfl⟩ := hw
           exact ⟨v, rfl, rfl⟩
         · simp [dmaCellWrite] at hw; obtain ⟨rfl, rfl⟩ := hw
-          exact ⟨v, rfl, rfl⟩
+          refine ⟨v &&& 7, rfl, ?_⟩
+          rw [BitVec.and_assoc]; rfl
         · rename_i f
           simp only [dmaCellWrite] at hw
           split at hw
@@ -1499,7 +1500,7 @@ theorem dma_window_independent (b b' : Bus) (o v : U16) (dc : DmaCell) (ev : Lis
 another channel `k'`, write `v'` to the same window register, select `k` again: the register
 reads `v`. -/
 theorem dma_window_eight_copies (b0 b1 b2 b3 b4 b5 : Bus) (f : DmaField) (k k' v v' : U16)
-    (e1 e2 e3 e4 e5 : List PEvent) (hk : k.toNat < 8) (hne : k ≠ k')
+    (e1 e2 e3 e4 e5 : List PEvent) (hk : k.toNat < 8) (hk' : k'.toNat < 8) (hne : k ≠ k')
     (h1 : b0.mmioWrite 0x1BE k = .ok (b1, e1)) (h2 : b1.mmioWrite (fieldOff f) v = .ok (b2, e2))
     (h3 : b2.mmioWrite 0x1BE k' = .ok (b3, e3)) (h4 : b3.mmioWrite (fieldOff f) v' = .ok (b4, e4))
     (h5 : b4.mmioWrite 0x1BE k = .ok (b5, e5)) : b5.readVal (fieldOff f) = .ok v := by
@@ -1508,11 +1509,19 @@ theorem dma_window_eight_copies (b0 b1 b2 b3 b4 b5 : Bus) (f : DmaField) (k k' v
   have d3 := dma_window_select _ _ _ _ h3
   obtain ⟨a4, d4⟩ := dma_window_write _ _ _ _ _ h4
   have d5 := dma_window_select _ _ _ _ h5
-  have hk5 : b5.per.dma.activeChannel.toNat < 8 := by rw [d5]; exact hk
+  have m7 : ∀ x : U16, x.toNat < 8 → x &&& 7 = x := by
+    intro x hx
+    apply BitVec.eq_of_toNat_eq
+    rw [BitVec.toNat_and]
+    show x.toNat &&& 7 = x.toNat
+    have : x.toNat &&& 7 = x.toNat % 8 := Nat.and_two_pow_sub_one_eq_mod x.toNat 3
+    omega
+  have hk5 : b5.per.dma.activeChannel.toNat < 8 := by
+    rw [d5]; simp only [Dma.activateChannel]; rw [m7 k hk]; exact hk
   rw [dma_window_read _ _ hk5]
   congr 1
   have hkk : k.toNat ≠ k'.toNat := fun e => hne (BitVec.eq_of_toNat_eq e)
-  simp only [d5, d4, d3, d2, d1, Dma.activateChannel]
+  simp only [d5, d4, d3, d2, d1, Dma.activateChannel, m7 k hk, m7 k' hk']
   rw [Vector.getElem_set_ne _ _ (Ne.symm hkk)]
   simp only [Vector.getElem_set_self, DmaField.get_set]
 
